@@ -4,6 +4,9 @@ use crate::guarded;
 use crate::sx::*;
 use std::collections::LinkedList;
 use structdiff::collections::ordered_array_like as oal;
+use structdiff::StructDiff;
+#[cfg(feature = "nanoserde")]
+use nanoserde::{DeBin, SerBin};
 
 fn hex(b: &[u8]) -> Sx {
     l(b.iter().map(|x| n(*x as usize)).collect())
@@ -128,4 +131,39 @@ pub fn apply_bytes(rest: &[Sx]) -> Sx {
         None => out.push(tag("ll-panic", vec![])),
     }
     tag("ok", out)
+}
+
+#[derive(Debug, Clone, PartialEq, structdiff::Difference)]
+#[cfg_attr(feature = "serde", derive(serde::Serialize, serde::Deserialize))]
+#[cfg_attr(feature = "nanoserde", derive(nanoserde::SerBin, nanoserde::DeBin))]
+pub struct OrdHolder {
+    #[difference(collection_strategy = "ordered_array_like")]
+    pub l: Vec<u32>,
+}
+
+/// runs the chosen entry point under `measure` and reports (peak heap growth, number of script entries);
+/// the script length is computed OUTSIDE the measured region
+pub fn diff_measured(which: &str, t: &[u32], s: &[u32], measure: &dyn Fn(&mut dyn FnMut()) -> usize) -> (usize, usize) {
+    match which {
+        "hirsch" => {
+            let mut out = None;
+            let peak = measure(&mut || out = Some(oal::hirschberg(t, s)));
+            let len = out.flatten().map(|d| format!("{:?}", d).matches("e(").count() + format!("{:?}", d).matches("t(").count()).unwrap_or(0);
+            (peak, len)
+        }
+        "lev" => {
+            let mut out = None;
+            let peak = measure(&mut || out = Some(oal::levenshtein(t, s)));
+            let len = out.flatten().map(|d| format!("{:?}", d).matches("e(").count() + format!("{:?}", d).matches("t(").count()).unwrap_or(0);
+            (peak, len)
+        }
+        _ => {
+            let a = OrdHolder { l: s.to_vec() };
+            let b = OrdHolder { l: t.to_vec() };
+            let mut out = None;
+            let peak = measure(&mut || out = Some(a.diff(&b)));
+            let len = out.map(|d| format!("{:?}", d).matches("e(").count() + format!("{:?}", d).matches("t(").count()).unwrap_or(0);
+            (peak, len)
+        }
+    }
 }
